@@ -25,26 +25,31 @@ def make_fake_hw():
             self.connect_fail = False
             self.log = []          # ("w", name, value) / ("r", name)
             self.connects = 0
+            self.calls = 0         # number of read/write calls that reached the device (failing ones included)
             self._is_connected = True
 
         def read(self, r):
+            self.calls += 1
             if self.fail:
                 raise HardwareLayerException("read failed")
             self.log.append(("r", r.name))
             return self.mem.get(r.name)
 
         def read_batch(self, registers):
+            self.calls += 1
             if self.fail:
                 raise HardwareLayerException("read_batch failed")
             return [self.read(r) for r in registers]
 
         def write(self, value, r):
+            self.calls += 1
             if self.fail:
                 raise HardwareLayerException("write failed")
             self.mem[r.name] = value
             self.log.append(("w", r.name, value))
 
         def write_batch(self, values, registers):
+            self.calls += 1
             if self.fail:
                 raise HardwareLayerException("write_batch failed")
             for v, r in zip(values, registers):
